@@ -981,6 +981,37 @@ impl rustc_driver::Callbacks for Cb {
                 );
             }
         }
+        // every struct defined in the crate, generic or not: its fields in definition order (MIR field indices follow this order)
+        out.push_str("],\n\"adts\":[");
+        let mut first = true;
+        for ldid in tcx.hir_crate_items(()).definitions() {
+            let did = ldid.to_def_id();
+            if !matches!(tcx.def_kind(did), DefKind::Struct) {
+                continue;
+            }
+            let def = tcx.adt_def(did);
+            let mut fields = Vec::new();
+            for f in def.non_enum_variant().fields.iter() {
+                let fty = tcx.type_of(f.did).instantiate_identity().skip_norm_wip();
+                let marker = match fty.kind() {
+                    TyKind::Adt(d, _) => d.is_phantom_data(),
+                    TyKind::Tuple(l) => l.is_empty(),
+                    _ => false,
+                };
+                fields.push(format!(
+                    "{{\"name\":{},\"ty\":{},\"vis\":{},\"marker\":{}}}",
+                    esc(f.name.as_str()),
+                    cx.ty(fty),
+                    esc(&format!("{:?}", f.vis)),
+                    marker
+                ));
+            }
+            if !first {
+                out.push(',');
+            }
+            first = false;
+            let _ = write!(out, "\n{{\"name\":{},\"repr\":{},\"fields\":[{}]}}", esc(&cx.path(did)), esc(&format!("{:?}", def.repr())), fields.join(","));
+        }
         out.push_str("]}\n");
         let path = format!("{}/{}.{}.json", outdir, crate_name, std::process::id());
         std::fs::write(&path, out).expect("write facts");
